@@ -3,6 +3,11 @@ CONSTANTS
   K = 3
   Maj = 2
   PromptMs = 2500
+  KnownMs = 1500
+  KnownBeats = 20
+  ValidityMs = 400
+  IntervalMs = 100
+  EpsMs = 3
 CONSTRAINT HighWater
 POSTCONDITION TraceAccepted
 CHECK_DEADLOCK FALSE
